@@ -1,4 +1,5 @@
-(* Shared driver of C22 / C23 / C24 (coq/extract/C22 and C23 hold symlinks to this file).
+(* Shared driver of C22 / C23 / C24.  The master copy is coq/extract/C24/kvdrv.ml; C22 and C23 hold copies
+   refreshed by the pre_build_cmd of checks/C22.json and checks/C23.json (edit only the C24 file).
    Parses the case format documented in harness/kvh/kvh.go, steps the extracted MODEL
    (KvStack.run_op) and the extracted SPECIFICATION (KvStackSpec.spec_run_op) over the same
    operations and compares both with the implementation's observation tokens.
@@ -38,8 +39,8 @@ let init_of_header (hd : string list) : st * sst =
   | base :: layers ->
     let m0, s0 = (match base with
       | "mem" -> Mem [], SEng []
-      | "ldb" -> Eng (ELdb, []), SEng []
-      | "pbl" -> Eng (EPbl, []), SEng []
+      | "ldb" | "ldb!" -> Eng (ELdb, []), SEng []
+      | "pbl" | "pbl!" -> Eng (EPbl, []), SEng []
       | _ -> failwith ("bad base " ^ base)) in
     List.fold_left (fun (m, s) l ->
       if l = "f" then (Flu ([], m), SFlu ([], s))
